@@ -396,6 +396,28 @@ pub fn run() -> i32 {
     r.boxes.push(json!({"box": "Americanist words under romanisers that match none of their segments", "comparisons": tam.evals, "equal_to_default": tam.rewritten}));
     tsy.merge(tam);
     td.merge(tsy);
+    // comma lists in alias lines stand for their members one per line, in both directions and for every pairing of list lengths the manual shows:
+    // n strings to n targets, n strings to one target (deromaniser), n segments to one string (romaniser)
+    let list_cases: Vec<(bool, &str, Vec<&str>)> = vec![
+        (true, "c, q > k", vec!["c > k", "q > k"]), (true, "c, q > k, ɡ", vec!["c > k", "q > ɡ"]), (true, "f, ph, v > f", vec!["f > f", "ph > f", "v > f"]),
+        (true, "aa, á, A > a:[+long]", vec!["aa > a:[+long]", "á > a:[+long]", "A > a:[+long]"]), (true, "sh, ch > ʃ, t͡ʃ", vec!["sh > ʃ", "ch > t͡ʃ"]), (true, "x, +h > k, [+sg]", vec!["x > k", "+h > [+sg]"]),
+        (false, "θ, ð > þ", vec!["θ > þ", "ð > þ"]), (false, "k, ɡ > c, g", vec!["k > c", "ɡ > g"]), (false, "a:[+long], a:[+stress], a > A, Á, æ", vec!["a:[+long] > A", "a:[+stress] > Á", "a > æ"]), (false, "p, t, k > *", vec!["p > *", "t > *", "k > *"]),
+    ];
+    let list_words: Vec<String> = ["ca.qa", "qa.ca.ka", "pha.fa.va", "aa.tá.tA", "sha.cha", "xa.kha.tha", "θa.ða", "ka.ɡa", "ˈpaː.ta.ka", "pa.ta.ka", "a"].iter().map(|s| s.to_string()).collect();
+    let mut tl = Acc::default();
+    for (is_into, list, lines) in &list_cases { for w in &list_words { for rl in [RULES[0], RULES[1]] {
+        tl.evals += 1;
+        let one = vec![list.to_string()]; let many: Vec<String> = lines.iter().map(|x| x.to_string()).collect();
+        let none: Vec<String> = vec![];
+        let run_with = |al: &Vec<String>| guarded(budget_for(14, 80) * 2, || if *is_into { asca::run(&[group(rl)], &[w.clone()], al, &none) } else { asca::run(&[group(rl)], &[w.clone()], &none, al) }.map_err(|e| format!("{:?}", std::mem::discriminant(&e))));
+        match (run_with(&one), run_with(&many)) {
+            (Out::Ok(x), Out::Ok(y)) if x == y => { if x.is_ok() { tl.rewritten += 1; } else { tl.same += 1; } }
+            (x, y) => tl.viols.push(Viol { key: format!("alias-list|{}|{}|{}", list, rl.join(" ;; "), w), desc: format!("{} `{}` on `{}` (rules {:?}) gives {:?}, its members one per line {:?} give {:?}", if *is_into { "deromaniser" } else { "romaniser" }, list, w, rl, x.crash_desc().map(|c| c.to_string()).or(match &x { Out::Ok(v) => Some(format!("{:?}", v)), _ => None }), lines, match &y { Out::Ok(v) => format!("{:?}", v), o => o.crash_desc().unwrap_or_default() }), case: json!({"kind": "amer"}) }),
+        }
+    } } }
+    r.boxes.push(json!({"box": "comma lists in alias lines vs their members one per line (6 deromaniser, 4 romaniser lists)", "comparisons": tl.evals, "equal_ok": tl.rewritten, "equal_err": tl.same}));
+    r.guard(tl.rewritten > 100, "alias lists: more than 100 equal Ok outcomes");
+    td.merge(tl);
     // `+` deromanisers: every matrix x every word of W(I3,3) (long and overlong segments, stress, tone) x every segment position
     let wp: Vec<CW> = { let inv: Vec<SegBits> = ["t", "a", "n"].iter().map(|t| seg(t)).collect(); let mut v = vec![];
         for (k, w) in word_space(&inv, 3).into_iter().enumerate() { v.push(w.clone()); let mut x = w.clone(); for (i, sy) in x.iter_mut().enumerate() { sy.stress = ((k + i) % 3) as u8; sy.tone = [0, 5, 51][(k / 2 + i) % 3]; } v.push(x); } v };
